@@ -85,3 +85,20 @@ Definition check_same_list (c : rcase) (runs : list lobs) : N :=
     verdict (forallb (list_agrees_c (model_context c)) runs) (forallb (lobs_eqb r0) rest)
             (context_missed (model_context c))
   end.
+
+(* C15 / C16: the listed blocks must be exactly those, known by construction, of
+   the files in scope / of the files whose names select a grammar; `None` when
+   the run must be rejected up front *)
+Definition spec_scope (exp : option (list (str * lblock))) (o : lobs) : bool :=
+  match exp, o with
+  | Some e, LObsList bs => mset_eqb plblock_eqb e bs
+  | None, LObsErr _ => true
+  | _, _ => false
+  end.
+
+Definition check_scope (c : rcase) (lo : lobs) (exp : option (list (str * lblock))) (extra : bool) : N :=
+  verdict (match exp with
+           | Some _ => list_agrees_c (model_context c) lo
+           | None => true        (* flag validation happens before the modelled part *)
+           end)
+          (spec_scope exp lo && extra) (context_missed (model_context c)).
